@@ -277,4 +277,53 @@ theorem simAdvanced_no_fault (budget : Nat) {mc ms : List Machine} (hmc : Machin
 
 end
 
+
+/-! ### queues built by `parse_trace` -/
+
+/-- the queue `parse_trace` builds from a non-empty trace with times up to `T` -/
+theorem parseTrace_queueOK {trace : List TraceLine} (d : Nat) {T : Nat} (hne : trace ≠ [])
+    (hT : ∀ l ∈ trace, l.1 ≤ T) : QueueOK (parseTrace trace d) (-(d : Int)) (T : Int) := by
+  obtain ⟨hs1, hs2⟩ := parseTrace_sides trace d
+  have hside := side_congr hs1 hs2
+  refine ⟨(parseTrace_spec trace d).1, ?_, parseTrace_other_empty trace d, ?_, parseTrace_firstTime_some trace d hne⟩
+  · intro c qi
+    rw [hside]
+    exact pushAll_ord _ _ empty_ord c qi
+  · refine SimQueue.allE_mono (parseTrace_mem trace d) ?_
+    intro e he
+    simp only [List.mem_map] at he
+    obtain ⟨l, hl, hle⟩ := he
+    subst hle
+    have := hT l hl
+    unfold nsOf
+    split <;> simp only [] <;> omega
+
+/-- the packets-per-second limit `parse_trace` derives from a non-empty trace is at least 1 -/
+theorem parseTrace_pps_pos {trace : List TraceLine} (d : Nat) (hne : trace ≠ []) :
+    ∃ lim, (parseTrace trace d).maxPps = some lim ∧ 1 ≤ lim := by
+  obtain ⟨lim, hlim, hs, hr⟩ := parseTrace_limit trace d
+  refine ⟨lim, hlim, ?_⟩
+  have hf : 1 ≤ Gen.SIM_PARSE_PPS_FACTOR := by decide
+  cases htr : trace with
+  | nil => exact absurd htr hne
+  | cons l ls =>
+    cases hl : l.2
+    · have : rTimes trace = (l.1 : Int) :: rTimes ls := by rw [htr]; simp [rTimes, hl]
+      rw [this] at hr
+      have := hr 1 (feedCounts_head _ _ _)
+      omega
+    · have : sTimes trace = (l.1 : Int) :: sTimes ls := by rw [htr]; simp [sTimes, hl]
+      rw [this] at hs
+      have := hs 1 (feedCounts_head _ _ _)
+      omega
+
+theorem parseTrace_effPps {trace : List TraceLine} (d : Nat) (hne : trace ≠ []) (net : Network)
+    (hpps : ∀ p, net.pps = some p → 1 ≤ p) : 1 ≤ effPps net (parseTrace trace d).maxPps := by
+  unfold effPps
+  cases hp : net.pps with
+  | some p => exact hpps p hp
+  | none =>
+    obtain ⟨lim, hlim, hpos⟩ := parseTrace_pps_pos d hne
+    simp [hlim, hpos]
+
 end Mb.Sim
